@@ -24,7 +24,7 @@ def lbpTop (T : Tbl) : Tree → Option Nat
   | _ => none
 
 def ledRbp (T : Tbl) (o : Nat) : Nat := match T.led o with | .infix r _ _ => r | _ => 0
-def nudRbp (T : Tbl) (p : Nat) : Nat := match T.nud p with | .prefix r => r | _ => 0
+def nudRbp (T : Tbl) (p : Nat) : Nat := match T.nud p with | .prefix r _ => r | _ => 0
 
 /-- the `rbp` of the innermost `expression(rbp)` call that returned the right edge of the tree
 (none: the right edge is a closed token: atom, type, closing bracket) -/
@@ -43,7 +43,7 @@ def WFr (T : Tbl) : Tree → Prop
       | _ => False
   | .pre p x =>
       match T.nud p with
-      | .prefix r => WFr T x ∧ gtO r (lbpTop T x)
+      | .prefix r rhs => WFr T x ∧ gtO r (lbpTop T x) ∧ rhsOk rhs x.yield = true
       | _ => False
   | .bin o l r =>
       match T.led o with
@@ -119,19 +119,28 @@ theorem pratt_inv (T : Tbl) : ∀ f,
         simp only [expr] at h
         split at h
         · -- prefix
-          rename_i r hnud
+          rename_i r rhs hnud
           split at h
-          · rename_i x rest' hx
-            have hx' := ihe r tl x rest' hx
-            have hwf : WFr T (.pre o x) := by simp only [WFr, hnud]; exact ⟨hx'.wf, hx'.top⟩
-            have := ihl rbp (.pre o x) rest' t rest h hwf (by simp [lbpTop, gtO])
-              (by
-                have := hx'.nxt
-                simp only [rclose, nudRbp, hnud]
-                exact this)
-            refine ⟨this.wf, this.top, ?_, this.nxt⟩
-            rw [this.yld, ← hx'.yld]; simp [Tree.yield]
           · simp at h
+          · rename_i hrhs
+            split at h
+            · rename_i x rest' hx
+              have hx' := ihe r tl x rest' hx
+              have hne := wfr_yield_ne_nil T x hx'.wf
+              have hwf : WFr T (.pre o x) := by
+                simp only [WFr, hnud]
+                refine ⟨hx'.wf, hx'.top, ?_⟩
+                have : rhsOk rhs tl = true := by simpa using hrhs
+                rw [← hx'.yld, rhsOk_append _ _ _ hne] at this
+                exact this
+              have := ihl rbp (.pre o x) rest' t rest h hwf (by simp [lbpTop, gtO])
+                (by
+                  have := hx'.nxt
+                  simp only [rclose, nudRbp, hnud]
+                  exact this)
+              refine ⟨this.wf, this.top, ?_, this.nxt⟩
+              rw [this.yld, ← hx'.yld]; simp [Tree.yield]
+            · simp at h
         · -- group
           rename_i c eo hnud
           split at h
